@@ -299,7 +299,82 @@ def run(pid, tier, replay=None):
                          "structurally invalid / in-state invalid / unappliable blocks, invalid and out-of-range transactions, random bytes, bit flips, splices), random fragmentation, "
                          "two other connections with a half-delivered request; non-trivial = not plain valid traffic")
     chk.assumptions.append("in-memory sockets; each input is followed by one manager step and by completion of the other peers' pending requests")
+    rc_ = bulk_flood_stage(chk, quick, pid, cfg, keys)
+    if rc_:
+        return rc_
     return chk.finish()
+
+
+def bulk_flood_stage(chk, quick, pid, cfg, keys):
+    """A long chain that fails the in-state rules (self-declared easy target, no evidence) sent as answers to block requests -- more than a
+    thousand blocks, more than any buffer of the node is likely to hold -- followed by a relayed block that is validated and rejected: when
+    the peer is through, chain state and block store are what they were.  Judged by TLC (TraceFacts)."""
+    from harness import fakenet, netmsg
+    import skepticoin.consensus as c
+    import skepticoin.networking.messages as M
+    import skepticoin.networking.remote_peer as rp_
+    from skepticoin.datatypes import Block, BlockHeader, BlockSummary, PowEvidence
+    from skepticoin.signing import SECP256k1PublicKey
+    sk.apply_cfg(cfg)
+    w = sk.World(cfg, keys, tag=b"flood")
+    g = w.make_genesis(ts=5000)
+    now = 5000 + 100000
+    node = fakenet.Node(w.T["CoinState"].empty().add_block_no_validation(g), g, clock=fakenet.Clock(now))
+    facts = []
+    n = 1100 if quick else 2300
+    try:
+        node.connect("p", host="10.0.0.2", port=5000, direction="OUTGOING", their_port=2412, nonce=55)
+        node.connect("q", host="10.0.0.3", port=5001, direction="INCOMING", their_port=2413, nonce=56)
+        node.take_sent("p")
+        pk = SECP256k1PublicKey(keys.pub[1])
+        prev, junk = g, []
+        before_ids = set(node.chain().block_by_hash.keys())
+        before_rows = {b.hash() for b in node.store_rows()}
+        mid = 9000
+        for i in range(1, n + 1):
+            H = prev.height + 1
+            if H % rp_.IBD_VALIDATION_SKIP == 0:
+                break
+            cb = c.construct_coinbase_transaction(H, [], {}, b"junk", pk)
+            summ = BlockSummary(H, prev.hash(), c.calc_merkle_root_hash([cb]), prev.timestamp + 1, b"\xff" * 32, 0)
+            b = Block(BlockHeader(summ, PowEvidence(b"\x00" * 32, b"\x00" * 32, b"\x00" * 32)), [cb])
+            junk.append(b)
+            prev = b
+            if node.is_open("p"):
+                mid += 1
+                node.use_store()
+                node.deliver("p", netmsg.frame(netmsg.body(M.DataMessage(M.DATA_BLOCK, b), mid, 77, ts=now)))
+        taken = sum(1 for b in junk if b.hash() in node.chain().block_by_hash)
+        # the block that is validated: relayed, child of the last junk block, fails the same rules
+        H = prev.height + 1
+        cb = c.construct_coinbase_transaction(H, [], {}, b"junk", pk)
+        summ = BlockSummary(H, prev.hash(), c.calc_merkle_root_hash([cb]), prev.timestamp + 1, b"\xff" * 32, 0)
+        last = Block(BlockHeader(summ, PowEvidence(b"\x00" * 32, b"\x00" * 32, b"\x00" * 32)), [cb])
+        if node.is_open("p"):
+            node.use_store()
+            node.deliver("p", netmsg.frame(netmsg.body(M.DataMessage(M.DATA_BLOCK, last), mid + 1, 0, ts=now)))
+        after_ids = set(node.chain().block_by_hash.keys())
+        try:
+            after_rows = {b.hash() for b in node.store_rows()}
+        except Exception:
+            after_rows = {b"?"}
+        facts.append({"clause": "C20:malformed_input_changed_chain_state", "holds": after_ids == before_ids,
+                      "what": "%d of %d junk blocks were taken unvalidated; %d blocks more than before are in the chain state after the rejection" % (taken, len(junk), len(after_ids - before_ids))})
+        facts.append({"clause": "C20:malformed_input_changed_block_store", "holds": after_rows == before_rows,
+                      "what": "%d blocks more than before are in the block store after the rejection" % len(after_rows - before_rows)})
+        facts.append({"clause": "C20:exception_escaped_the_event_handler_or_manager_step", "holds": not node.escaped, "what": "%s" % node.escaped[:2]})
+        facts.append({"clause": "C20:malformed_input_affected_another_connection", "holds": node.is_open("q"), "what": "the other connection"})
+        chk.extra["bulk_flood"] = {"junk_blocks_sent": len(junk), "taken_unvalidated": taken}
+        chk.case(("bulk_flood", n), nontrivial=True)
+        if taken < 1000:
+            chk.notes.append("bulk flood: only %d junk blocks were taken unvalidated" % taken)
+    finally:
+        node.close()
+    v, r = tracecheck.run("TraceFacts", facts, {}, ids=[1], workers=1, timeout=300)
+    chk.traces_validated += 1
+    for (line, clause) in tlc.tagged(r, "FINDING"):
+        chk.violation(clause, {"bulk_flood": facts[line - 1]["what"]}, {"clause": clause, "class": "bulk_flood"})
+    return 0
 
 
 def register_block(rt, w, cand):
